@@ -778,11 +778,11 @@ SITES = {
 
 
 def run(prop, mir, src, ob, tier="quick"):
-    import mirblocks, mirflow, mirpaths, mirload, mirquery
+    import mirblocks, mirflow, mirpaths, mirload, mirquery, mirorder
     a = Agg(mir, src, ob, tier)
     for s in SITES.get(prop, []):
         getattr(a, s)()
-    for f in mirblocks.SITES.get(prop, []) + mirflow.SITES.get(prop, []) + mirpaths.SITES.get(prop, []) + mirload.SITES.get(prop, []) + mirquery.SITES.get(prop, []):
+    for f in mirblocks.SITES.get(prop, []) + mirflow.SITES.get(prop, []) + mirpaths.SITES.get(prop, []) + mirload.SITES.get(prop, []) + mirquery.SITES.get(prop, []) + mirorder.SITES.get(prop, []):
         try:
             f(a)
         except Untranslatable as e:
@@ -793,5 +793,6 @@ def run(prop, mir, src, ob, tier="quick"):
 
 
 def has_sites(prop):
-    import mirblocks, mirflow, mirpaths, mirload, mirquery
-    return prop in SITES or prop in mirblocks.SITES or prop in mirflow.SITES or prop in mirpaths.SITES or prop in mirload.SITES or prop in mirquery.SITES
+    import mirblocks, mirflow, mirpaths, mirload, mirquery, mirorder
+    return (prop in SITES or prop in mirblocks.SITES or prop in mirflow.SITES or prop in mirpaths.SITES or prop in mirload.SITES
+            or prop in mirquery.SITES or prop in mirorder.SITES)
